@@ -62,12 +62,14 @@ Lemma first_fragment_size_eq S : RESERVED_SIZE + 8 <= S < 2 ^ 64 ->
 Proof.
   intros H. pose proof RESERVED_SIZE_val as R.
   destruct (fragment_size_eq S ltac:(lia)) as [E1 E2].
-  unfold first_fragment_size, first_fragment_size_safe. rewrite E1, E2. unfold fs, ffs.
-  change (U.add (U.lnot 8) 1) with 18446744073709551608.
-  unfold U.land, U.sub, U.sub_ok, U.add_ok.
-  rewrite wrap_id by (rewrite modulus_val; lia).
-  rewrite land_round_down8 by lia. split; [reflexivity|].
-  change (U.lnot 8 + 1 <? U.modulus) with true. rewrite andb_true_r, andb_true_l. lia.
+  unfold first_fragment_size, first_fragment_size_safe. rewrite E1. unfold fs, ffs. split.
+  - (* the mask is a closed term, however the source spells it (`!8 + 1`, `!7`, a constant): evaluate it *)
+    match goal with |- context [U.land _ ?m] => let v := eval vm_compute in m in change m with v end.
+    unfold U.land, U.sub. rewrite wrap_id by (rewrite modulus_val; lia).
+    rewrite land_round_down8 by lia. reflexivity.
+  - (* every side condition the translator recorded: the callee's, the subtraction's, whatever the mask needed *)
+    repeat (apply andb_true_intro; split);
+      first [exact E2 | reflexivity | (unfold U.sub_ok, U.add_ok, fs in *; rewrite ?E1; unfold fs; lia)].
 Qed.
 
 Lemma ffs_bounds S : RESERVED_SIZE + 8 <= S -> 0 <= ffs S <= S - 40 /\ S - 48 < ffs S.
@@ -121,7 +123,7 @@ Qed.
 Lemma CMSG_ALIGN_eq n : 0 <= n < 2 ^ 62 -> CMSG_ALIGN n = 8 * ((n + 7) / 8) /\ CMSG_ALIGN_safe n = true.
 Proof.
   intros H. unfold CMSG_ALIGN, CMSG_ALIGN_safe.
-  change (U.lnot (U.sub 8 1)) with 18446744073709551608.
+  match goal with |- context [U.land _ ?m] => let v := eval vm_compute in m in change m with v end.
   unfold U.land, U.sub, U.add, U.add_ok, U.sub_ok.
   rewrite (wrap_id (n + 8)) by (rewrite modulus_val; lia).
   rewrite wrap_id by (rewrite modulus_val; lia).
